@@ -48,6 +48,8 @@ Rewrite rules (closed list, every application logged with source line):
   N10 (opt-in) `X.iter()|into_iter()[.zip(Y)] .map(|p| E) | .filter_map(|p| O.map(|q| E)) .collect()` -> explicit loop
       pushing into a Vec, inserting pairs into a HashMap (when the `let` is annotated HashMap) or building `Ok(vec)`
       (when every element is `Ok(..)`); zip becomes the stub `vx_zip` carrying Iterator::zip's contract
+  T   `//@extract file=F impl=I fn=f default_file=G default_impl=J`: when impl I does not define f, the trait's default
+      body (impl J in G) is extracted instead -- Rust's own method resolution
   A   arm focus (see //@arms)
   P   prefix focus (//@cut before=/re/): the function's statements from the anchor (a top-level
       statement) to the end are replaced by `return self.vx_rest()`, a stub with no contract
@@ -1444,7 +1446,17 @@ class Gen:
     def do_extract(self, kv, block, vline):
         rel, name = kv["file"], kv["fn"]
         src = self.src(rel)
-        loc = find_fn(src, name, kv.get("impl"), int(kv.get("nth", "0")))
+        try:
+            loc = find_fn(src, name, kv.get("impl"), int(kv.get("nth", "0")))
+        except VxError:
+            # Rust method resolution: a trait method the impl does not override is the trait's default body
+            if "default_file" not in kv:
+                raise
+            self.log.append(dict(rule="T", file=rel, line=0, fn=name, before="%s has no `fn %s` (impl ~ %s)" % (rel, name, kv.get("impl")),
+                                 after="trait default body from %s (%s)" % (kv["default_file"], kv.get("default_impl"))))
+            rel = kv["default_file"]
+            src = self.src(rel)
+            loc = find_fn(src, name, kv.get("default_impl"), 0)
         enabled = set(ALL_RULES) - {"N8", "N10"}   # N8 (Option::map) and N10 (collect chains) are opt-in
         maps, sigmaps, arms, cut = [], [], None, None
         requires, ensures = [], []
